@@ -68,6 +68,10 @@ def cases(tier, seed):
                     if d >= 3 and op in ('sw', 'proj', 'div') and (len(ka) + len(kb) > 8):
                         ka = rng.choice([g for g in G if len(g) <= 4]); kb = rng.choice([g for g in G if len(g) <= 4])
                     out.append(dict(kind='binary', base=base, opt=oname, op=op, ka=list(ka), kb=list(kb)))
+            # inverse / division on every single-grade pattern (null blades, pseudoscalars: raise behaviour must agree too)
+            for g in [g for g in pat.GRD(d, max_grades=1) if g]:
+                out.append(dict(kind='unary', base=base, opt=oname, op='inv', ka=list(g)))
+                out.append(dict(kind='binary', base=base, opt=oname, op='div', ka=list(G[0]), kb=list(g)))
             for op in UN:
                 if op in ('polarity', 'unpolarity') and base.get('r'):
                     continue
